@@ -84,13 +84,20 @@ namespace igris
 
         void push(const T &obj)
         {
-            new (buffer.data() + r.head) T(obj);
+            T *place = buffer.data() + r.head;
+            if (place != &obj)
+            {
+                place->~T();
+                new (place) T(obj);
+            }
             ring_move_head_one(&r);
         }
 
         template <typename... Args> void emplace(Args &&... args)
         {
-            new (buffer.data() + r.head) T(std::forward<Args>(args)...);
+            T *place = buffer.data() + r.head;
+            place->~T();
+            new (place) T(std::forward<Args>(args)...);
             ring_move_head_one(&r);
         }
 
